@@ -364,3 +364,27 @@ PLANS["C17"] = {
                                                        "meta-block", "word-in-meta", "included-file", "after-include", "injected-text",
                                                        "identical-sources", "second-error", "definition-body-build-error"]],
 }
+
+PLANS["C06"] = {
+    "jobs": {
+        "quick": [("", "release", 120000), ("", "dev", 24000)],
+        "thorough": [("", "release", 5000000), ("", "dev", 1000000)],
+    },
+    "rule": "a case is a sequence of 6..75 parsing words on one interpreter: open-bitstr of a 0..199-bit value cut out of a longer "
+            "random buffer at a random bit position (nested up to depth 12), close-bitstr, bits, bytes, uN/iN[le|be] for N in 8 16 32 "
+            "64, int, uint, fN[le|be], float, magic (the next bits, a corrupted copy, or a pattern longer than what is left), seek "
+            "(start, end, end+1, start-1, inside, hostile), find (present and absent byte patterns, unaligned patterns), remain, "
+            "big/little, nulbytestr, cstr, and wrong-type arguments; sizes are drawn from {0, remain, remain+-1, 2^32+-1, 2^61, "
+            "2^63-1, 2^63, 2^64-1, 2^64, 2^64+1, 2^64+8, usize::MAX/8+1, i128 max/min, -1, random}. After every word the real "
+            "offset, input, remain and data stack are compared with a cursor model (stack of inputs with the absolute position of "
+            "their first bit) and independent decoders; after a refused word offset, input and the stack below the arguments must be "
+            "unchanged. distinct = distinct word sequences",
+    "assumptions": ["offsets are absolute positions inside the value's backing buffer (the position of a freshly opened input is read "
+                    "from `offset` once and tracked by the model afterwards)",
+                    "find is defined on whole bytes: with a cursor or rest that is not byte aligned it may be refused or searched, but "
+                    "never moves anything; a zero-width int/uint may be refused or yield 0",
+                    "close-bitstr with nothing left to close may fail; it then changes nothing"],
+    "require": [need("cursor_checks", 2000000), need("failures_confirmed", 500000), need("nothing_moved_checks", 500000), need("closes", 50000),
+                need_set("failure_kinds", 40), need("word:magic", 50000), need("word:find", 50000), need("word:seek", 50000),
+                need("word:cstr", 20000), need("word:nulbytestr", 20000)],
+}
